@@ -13,6 +13,7 @@
   `Paragraph.parse_setext` is `True` after every top-level read (`sx_all`).
 -/
 import Mistletoe.Proofs.Block
+import Mistletoe.Proofs.BlockTotal
 namespace Mistletoe.Block
 open Mistletoe Mistletoe.Py Mistletoe.Scan
 
@@ -85,7 +86,7 @@ theorem blockCodeLoop_tb : ∀ (fuel : Nat) (b : FW) (buf : List Str) (tb p0 : N
     · exact h
     · split
       · apply blockCodeLoop_tb fuel
-        split <;> omega
+        omega
       · split
         · simpa [FW.next, FW.backstep] using h
         · apply blockCodeLoop_tb fuel; omega
@@ -2019,8 +2020,10 @@ theorem sx_all (cfg : Cfg) : ∀ g, SxTok cfg g ∧ SxLoop cfg g ∧ SxTry cfg g
 
 /-! ### (P), wider: readers that may read across blank lines, when they stopped inside the buffer -/
 
-/-- a line other than "\n" remains at or after the cursor -/
-def FW.NB (a : FW) : Prop := ∃ q l, a.pos ≤ q ∧ a.lines[q]? = some l ∧ l.s ≠ ['\n']
+/-- a line that is not whitespace-only remains at or after the cursor
+    (`BlockCode.read` hands back EVERY trailing whitespace-only line, so "a line other than \"\\n\"
+    remains" would not do: the reader may have run to the end of the buffer over a line of spaces) -/
+def FW.NB (a : FW) : Prop := ∃ q l, a.pos ≤ q ∧ a.lines[q]? = some l ∧ isBlank l.s = false
 
 theorem peek_none_ge (a : FW) (h : a.peek = none) : a.lines.length ≤ a.pos := by
   simp only [FW.peek] at h
@@ -2157,8 +2160,8 @@ theorem readHtmlBlock_ext (nl : Line) (rest : List Line) (hnl : nl.s = ['\n']) (
 
 theorem blockCodeLoop_ext (post : List Line) : ∀ (f f' : Nat) (a : FW) (buf : List Str) (tb : Nat),
     a.remaining < f → a.remaining < f' →
-    (∀ q l, a.pos - tb ≤ q → q < a.pos → a.lines[q]? = some l → l.s = ['\n']) →
-    (∃ q l, (blockCodeLoop f a buf tb).2.2.pos - (blockCodeLoop f a buf tb).2.1 ≤ q ∧ a.lines[q]? = some l ∧ l.s ≠ ['\n']) →
+    (∀ q l, a.pos - tb ≤ q → q < a.pos → a.lines[q]? = some l → isBlank l.s = true) →
+    (∃ q l, (blockCodeLoop f a buf tb).2.2.pos - (blockCodeLoop f a buf tb).2.1 ≤ q ∧ a.lines[q]? = some l ∧ isBlank l.s = false) →
     blockCodeLoop f' (a.ext post) buf tb =
       ((blockCodeLoop f a buf tb).1, (blockCodeLoop f a buf tb).2.1, (blockCodeLoop f a buf tb).2.2.ext post)
   | 0, _, _, _, _, h, _, _, _ => by omega
@@ -2172,7 +2175,7 @@ theorem blockCodeLoop_ext (post : List Line) : ∀ (f f' : Nat) (a : FW) (buf : 
       simp only [hp] at hr
       obtain ⟨q, l, hq, hl, hne⟩ := hr
       have hlt := (List.getElem?_eq_some_iff.mp hl).1
-      exact hne (hinv q l hq (by omega) hl)
+      rw [hinv q l hq (by omega) hl] at hne; cases hne
     | some l =>
       have hrem := next_remaining a l hp
       have hlp : a.lines[a.pos]? = some l := hp
@@ -2185,15 +2188,12 @@ theorem blockCodeLoop_ext (post : List Line) : ∀ (f f' : Nat) (a : FW) (buf : 
         refine blockCodeLoop_ext post f f' a.next _ _ (by omega) (by omega) ?_ hr
         intro q l' hq1 hq2 hl'
         have hnp : a.next.pos = a.pos + 1 := rfl
-        split at hq1
-        · rename_i hnl
-          by_cases hqe : q = a.pos
-          · subst hqe
-            have : l' = l := Option.some.inj (hl'.symm.trans hlp)
-            subst this
-            simpa using hnl
-          · exact hinv q l' (by omega) (by omega) hl'
-        · omega
+        by_cases hqe : q = a.pos
+        · subst hqe
+          have : l' = l := Option.some.inj (hl'.symm.trans hlp)
+          subst this
+          exact hb
+        · exact hinv q l' (by omega) (by omega) hl'
       · rename_i hb
         simp only [hb] at hr
         split
@@ -2332,7 +2332,7 @@ def noList : Entry → Bool
   | _ => true
 
 /-- what the dispatch loop knows about a step: the entry is not a list, and either it is of a closed
-    kind or a line other than "\n" remains at or after the cursor it returned -/
+    kind or a line that is not whitespace-only remains at or after the cursor it returned -/
 def okR : Option (Entry × FW × St) → Prop
   | none => True
   | some (e, fw', _) => noList e = true ∧ (closedE e = true ∨ fw'.NB)
@@ -2582,10 +2582,12 @@ theorem tryTypes_some_ne_nl (cfg : Cfg) (hbl : .blankLine ∉ cfg.types) (gas : 
   rw [tryTypes_nl_none cfg fw st l hl cfg.types _ hbl (by omega)] at h1
   cases h1
 
-/-- if the loop started at `fw` produces any entry at all, a line other than "\n" lies at or after `fw` -/
+/-- if the loop started at `fw` produces any entry at all, a line other than "\n" lies at or after `fw`
+    (no longer used: what `readBlockCode_ext` needs is a line that is not whitespace-only, `tokLoop_closed_nbl`) -/
 theorem tokLoop_new_nb (cfg : Cfg) (hbl : .blankLine ∉ cfg.types) : ∀ (gas : Nat) (fw : FW) (st : St) (acc : List Entry)
     (loose : Bool) (buf : Buf) (st' : St) (new : List Entry),
-    tokLoop cfg gas fw st acc loose = .ok (buf, st') → buf.entries = acc.reverse ++ new → new ≠ [] → fw.NB
+    tokLoop cfg gas fw st acc loose = .ok (buf, st') → buf.entries = acc.reverse ++ new → new ≠ [] →
+    ∃ q l, fw.pos ≤ q ∧ fw.lines[q]? = some l ∧ l.s ≠ ['\n']
   | 0, _, _, _, _, _, _, _, h, _, _ => by simp [tokLoop] at h
   | gas + 1, fw, st, acc, loose, buf, st', new, h, hn, hne => by
     simp only [tokLoop] at h
@@ -2608,6 +2610,238 @@ theorem tokLoop_new_nb (cfg : Cfg) (hbl : .blankLine ∉ cfg.types) : ∀ (gas :
           obtain ⟨q, l', hq, hl', hne'⟩ := tokLoop_new_nb cfg hbl gas fw.next st acc true buf st' new h hn hne
           exact ⟨q, l', Nat.le_trans (Nat.le_succ _) hq, hl', hne'⟩
         | some x => exact ⟨fw.pos, l, Nat.le_refl _, hp, tryTypes_some_ne_nl cfg hbl gas fw st l x ht⟩
+
+theorem ll_span_cat (p : Char → Bool) : ∀ (s : Str), (span p s).1 ++ (span p s).2 = s
+  | [] => rfl
+  | c :: rest => by
+    simp only [span]
+    split
+    · simp only [List.cons_append, ll_span_cat p rest]
+    · rfl
+
+theorem ll_mem_not_blank (s : Str) (c : Char) (hm : c ∈ s) (hc : pyIsSpace c = false) : isBlank s = false := by
+  unfold isBlank
+  cases h : s.all pyIsSpace with
+  | false => rfl
+  | true =>
+    rw [List.all_eq_true] at h
+    rw [h c hm] at hc; cases hc
+
+/-! ### A block of a closed kind starts on a line that is not whitespace-only -/
+
+theorem ll_span_head (p : Char → Bool) (s : Str) (h : (span p s).1 ≠ []) : ∃ c r, s = c :: r ∧ p c = true := by
+  cases s with
+  | nil => simp [span] at h
+  | cons c r =>
+    refine ⟨c, r, rfl, ?_⟩
+    cases hp : p c with
+    | true => rfl
+    | false => simp [span, hp] at h
+
+theorem ll_upTo3_mem (s : Str) (n : Nat) (r : Str) (h : upTo3Spaces s = some (n, r)) (c : Char) (hc : c ∈ r) : c ∈ s := by
+  unfold upTo3Spaces at h
+  simp only at h
+  split at h
+  · cases h
+  · cases h; exact List.mem_of_mem_drop hc
+
+theorem heading_nonblank (s : Str) (m) (h : Scan.heading s = some m) : isBlank s = false := by
+  unfold Scan.heading at h
+  cases hu : upTo3Spaces s with
+  | none => simp [hu] at h
+  | some x =>
+    obtain ⟨n, r⟩ := x
+    simp only [hu] at h
+    have hne : (span (· == '#') r).1 ≠ [] := by
+      intro e
+      rw [e] at h
+      simp at h
+    obtain ⟨c, r', hr, hc⟩ := ll_span_head _ r hne
+    simp only [beq_iff_eq] at hc
+    subst hc
+    exact ll_mem_not_blank s '#' (ll_upTo3_mem s n r hu '#' (by rw [hr]; simp)) (by decide)
+
+theorem thematicBreak_nonblank (s : Str) (h : Scan.thematicBreak s = true) : isBlank s = false := by
+  unfold Scan.thematicBreak at h
+  cases hu : upTo3Spaces s with
+  | none => simp [hu] at h
+  | some x =>
+    obtain ⟨n, r⟩ := x
+    simp only [hu] at h
+    cases r with
+    | nil => simp at h
+    | cons c r' =>
+      simp only [Bool.and_eq_true, Bool.or_eq_true, beq_iff_eq] at h
+      have hm : c ∈ s := ll_upTo3_mem s n (c :: r') hu c (by simp)
+      rcases h.1.1 with (rfl | rfl) | rfl
+      · exact ll_mem_not_blank s _ hm (by decide)
+      · exact ll_mem_not_blank s _ hm (by decide)
+      · exact ll_mem_not_blank s _ hm (by decide)
+
+theorem ll_lstripSp_suffix : ∀ (s : Str), lstripSp s <:+ s
+  | [] => List.suffix_refl _
+  | c :: rest => by
+    by_cases hc : c = ' '
+    · subst hc
+      simp only [lstripSp]
+      exact List.IsSuffix.trans (ll_lstripSp_suffix rest) (List.suffix_cons _ _)
+    · have : lstripSp (c :: rest) = c :: rest := by
+        unfold lstripSp
+        split
+        · rename_i heq; cases heq; exact absurd rfl hc
+        · rfl
+      rw [this]
+      exact List.suffix_refl _
+
+theorem quoteStart_nonblank (s : Str) (h : quoteStart s = true) : isBlank s = false := by
+  unfold quoteStart at h
+  simp only at h
+  split at h
+  · cases h
+  · have hsuf := ll_lstripSp_suffix s
+    cases hl : lstripSp s with
+    | nil => rw [hl] at h; simp [startsWith] at h
+    | cons c r =>
+      rw [hl] at h hsuf
+      simp only [startsWith, List.isPrefixOf, Bool.and_eq_true, beq_iff_eq] at h
+      have hc : c = '>' := h.1.symm
+      subst hc
+      exact ll_mem_not_blank s '>' (hsuf.subset (by simp)) (by decide)
+
+theorem contains_bar_nonblank (s : Str) (h : s.contains '|' = true) : isBlank s = false :=
+  ll_mem_not_blank s '|' (by simpa using h) (by decide)
+
+theorem tryTypes_closed_nonblank (cfg : Cfg) : ∀ (gas : Nat) (fw : FW) (st : St) (l : Line) (ts : List BTok) (e : Entry) (fw' : FW) (st' : St),
+    tryTypes cfg gas fw st l ts = .ok (some (e, fw', st')) → closedE e = true → isBlank l.s = false
+  | 0, _, _, _, _, _, _, _, h, _ => by simp [tryTypes] at h
+  | _ + 1, _, _, _, [], _, _, _, h, _ => by simp [tryTypes] at h
+  | gas + 1, fw, st, l, t :: ts, e, fw', st', h, hc => by
+    have ih := fun fw2 st2 (h2 : tryTypes cfg gas fw2 st2 l ts = .ok (some (e, fw', st'))) =>
+      tryTypes_closed_nonblank cfg gas fw2 st2 l ts e fw' st' h2 hc
+    unfold tryTypes at h
+    cases t <;> simp only at h
+    · -- htmlBlock
+      split at h
+      · cases h
+      · exact ih _ _ h
+      · cases h; cases hc
+    · -- blockCode
+      split at h
+      · cases h; cases hc
+      · exact ih _ _ h
+    · -- heading
+      split at h
+      · rename_i hh
+        unfold readHeading at hh
+        split at hh
+        · cases hh
+        · rename_i m hm; exact heading_nonblank _ m hm
+      · exact ih _ _ h
+    · -- quote
+      split at h
+      · rename_i hq; exact quoteStart_nonblank _ hq
+      · exact ih _ _ h
+    · -- codeFence
+      split at h
+      · cases h; cases hc
+      · exact ih _ _ h
+    · -- thematicBreak
+      split at h
+      · rename_i ht; exact thematicBreak_nonblank _ ht
+      · exact ih _ _ h
+    · -- list
+      split at h
+      · split at h
+        · cases h
+        · cases h; cases hc
+      · exact ih _ _ h
+    · -- table
+      split at h
+      · rename_i hp; exact contains_bar_nonblank _ hp
+      · exact ih _ _ h
+    · -- footnote
+      split at h
+      · split at h
+        · cases h
+        · split at h
+          · exact ih _ _ h
+          · cases h; cases hc
+      · exact ih _ _ h
+    · -- paragraph
+      split at h
+      · rename_i hb; simpa using hb
+      · exact ih _ _ h
+    · -- blankLine
+      split at h
+      · cases h; cases hc
+      · exact ih _ _ h
+    · -- linkRefDefBlock
+      split at h
+      · split at h
+        · cases h
+        · split at h
+          · exact ih _ _ h
+          · cases h; cases hc
+      · exact ih _ _ h
+
+/-- if the entries the loop produces from `fw` on end with a block of a closed kind, a line that is
+    not whitespace-only lies at or after `fw` -/
+theorem tokLoop_closed_nbl (cfg : Cfg) : ∀ (gas : Nat) (fw : FW) (st : St) (acc : List Entry)
+    (loose : Bool) (buf : Buf) (st' : St) (new : List Entry), AllNlEnd fw.lines →
+    tokLoop cfg gas fw st acc loose = .ok (buf, st') → buf.entries = acc.reverse ++ new → new ≠ [] →
+    (∀ e, new.getLast? = some e → closedE e = true) → fw.NB
+  | 0, _, _, _, _, _, _, _, _, h, _, _, _ => by simp [tokLoop] at h
+  | gas + 1, fw, st, acc, loose, buf, st', new, hl, h, hn, hne, hlast => by
+    simp only [tokLoop] at h
+    cases hp : fw.peek with
+    | none =>
+      simp only [hp, Res.ok.injEq, Prod.mk.injEq] at h
+      rw [← h.1] at hn
+      simp only at hn
+      have : new = [] := by simpa using hn
+      exact absurd this hne
+    | some l =>
+      simp only [hp] at h
+      cases ht : tryTypes cfg gas fw st l cfg.types with
+      | err e => simp [ht] at h
+      | ok o =>
+        simp only [ht] at h
+        cases o with
+        | none =>
+          simp only at h
+          obtain ⟨q, l', hq, hl', hb⟩ := tokLoop_closed_nbl cfg gas fw.next st acc true buf st' new hl h hn hne hlast
+          exact ⟨q, l', Nat.le_trans (Nat.le_succ _) hq, hl', hb⟩
+        | some x =>
+          obtain ⟨en, fw1, st1⟩ := x
+          simp only at h
+          have hfwd := tryTypes_fwd cfg gas fw l cfg.types fw st en fw1 st1 hl ht (Same.refl fw) rfl hp
+          have hacc := tokLoop_acc cfg gas fw1 st1 (en :: acc) loose
+          rw [h] at hacc
+          cases hr : tokLoop cfg gas fw1 st1 [] false with
+          | err e => rw [hr] at hacc; cases hacc
+          | ok r1 =>
+            rw [hr] at hacc
+            simp only [rmap_ok, withAcc, Res.ok.injEq, Prod.mk.injEq] at hacc
+            have hent : buf.entries = (en :: acc).reverse ++ r1.1.entries := by rw [hacc.1]
+            have hnew : new = en :: r1.1.entries := by
+              have : acc.reverse ++ new = acc.reverse ++ (en :: r1.1.entries) := by
+                rw [← hn, hent]; simp
+              exact List.append_cancel_left this
+            cases hre : r1.1.entries with
+            | nil =>
+              have hcl : closedE en = true := by apply hlast; rw [hnew, hre]; rfl
+              exact ⟨fw.pos, l, Nat.le_refl _, hp, tryTypes_closed_nonblank cfg gas fw st l cfg.types en fw1 st1 ht hcl⟩
+            | cons y ys =>
+              obtain ⟨q, l', hq, hl', hb⟩ := tokLoop_closed_nbl cfg gas fw1 st1 (en :: acc) loose buf st' r1.1.entries
+                (by rw [hfwd.1.1]; exact hl) h hent (by rw [hre]; simp)
+                (by
+                  intro e he
+                  apply hlast
+                  rw [hnew, hre]
+                  rw [hre] at he
+                  rw [List.getLast?_cons_cons]; exact he)
+              have := hfwd.2 footAdv
+              exact ⟨q, l', by omega, by rw [← hfwd.1.1]; exact hl', hb⟩
 
 theorem tokLoop_ext (cfg : Cfg) (nl : Line) (rest : List Line) (hnl : nl.s = ['\n']) (hbl : .blankLine ∉ cfg.types)
     (extra : Nat) (hex : cfg.types.length < extra) :
@@ -2666,26 +2900,27 @@ theorem tokLoop_ext (cfg : Cfg) (nl : Line) (rest : List Line) (hnl : nl.s = ['\
               have : acc.reverse ++ new = acc.reverse ++ (en :: r1.1.entries) := by
                 rw [← hn, hent]; simp
               exact List.append_cancel_left this
+            have hsame := (same_all cfg gas).1 a st l cfg.types _ ht
+            have hl' : AllNlEnd fw'.lines := by rw [hsame.1]; exact hl
+            have hlast' : ∀ e, r1.1.entries.getLast? = some e → closedE e = true := by
+              intro e he
+              apply hlast
+              rw [hnew]
+              cases hre : r1.1.entries with
+              | nil => rw [hre] at he; cases he
+              | cons y ys => rw [hre] at he; rw [List.getLast?_cons_cons]; exact he
             have hok : okR (some (en, fw', st1)) := by
               refine ⟨hnol en (by rw [hnew]; simp), ?_⟩
               cases hre : r1.1.entries with
               | nil => left; apply hlast; rw [hnew, hre]; rfl
               | cons y ys =>
                 right
-                exact tokLoop_new_nb cfg hbl gas fw' st1 (en :: acc) loose buf st' r1.1.entries h hent (by rw [hre]; simp)
+                exact tokLoop_closed_nbl cfg gas fw' st1 (en :: acc) loose buf st' r1.1.entries hl' h hent (by rw [hre]; simp) hlast'
             have key := extTry2_all cfg nl rest hnl (gas + extra) a st l cfg.types (some (en, fw', st1)) hl hp hm hok
-            have hsame := (same_all cfg gas).1 a st l cfg.types _ ht
             simp only [key.1, Option.map_some, extT]
             obtain ⟨g', hg, heq⟩ := tokLoop_ext cfg nl rest hnl hbl extra hex gas fw' st1 (en :: acc) loose buf st' r1.1.entries
-              (key.2 _ rfl).1 (by rw [hsame.1]; exact hl) h hent
-              (fun e he => hnol e (by rw [hnew]; exact List.mem_cons_of_mem _ he))
-              (by
-                intro e he
-                apply hlast
-                rw [hnew]
-                cases hre : r1.1.entries with
-                | nil => rw [hre] at he; cases he
-                | cons y ys => rw [hre] at he; rw [List.getLast?_cons_cons]; exact he)
+              (key.2 _ rfl).1 hl' h hent
+              (fun e he => hnol e (by rw [hnew]; exact List.mem_cons_of_mem _ he)) hlast'
             refine ⟨g', hg, ?_⟩
             rw [heq]
             have h1 : fw'.lines = a.lines := hsame.1
